@@ -14,21 +14,39 @@ observer("IRepetitionStrategy.get_repetition_number", params=dict(self=REF("IRep
          ensures=["not typeis(self, FixedRepetitionStrategy) or result == self.repetitions"])
 refines("FixedRepetitionStrategy.get_repetition_number", "IRepetitionStrategy.get_repetition_number", props=P)
 
-# copy of a composite (assumed; faithfulness is C05's: per-class contracts + bounded stand-in): a fresh composite with as many nodes,
-# none of whose operations occurs in any existing graph, all pairwise different
-contract("CircuitCompositeOperation.copy", params=dict(self=CCO, relation_transfer_lookup=OPT(DICT(OP, OP))), returns=CCO, verify=False,
-         fresh_result=True, modifies=["graph"],
-         ensures=["typeis(result, CircuitCompositeOperation)", "fresh(result._circuit_graph)",
-                  f"len(result._circuit_graph.get_node_iterator()) == len({NODES})",
-                  "forall(result._circuit_graph.get_node_iterator(), lambda n: fresh(n.operation))",
-                  "forall(result._circuit_graph.get_node_iterator(), lambda m: forall_obj(CircuitGraphBranch, lambda g: fresh(g) or "
-                  "forall(g.get_node_iterator(), lambda n: n.operation is not m.operation)))",
-                  "forall_int(0, len(result._circuit_graph.get_node_iterator()), lambda a: forall_int(0, a, lambda b: "
-                  "result._circuit_graph.get_node_iterator()[a].operation is not result._circuit_graph.get_node_iterator()[b].operation))",
-                  "result.repetition_strategy is self.repetition_strategy",
-                  # the original - and every other existing graph - is untouched
-                  "forall_obj(CircuitGraphBranch, lambda g: fresh(g) or seq_is(g.get_node_iterator(), old(g.get_node_iterator())))",
-                  "forall_obj(CircuitCompositeOperation, lambda c: fresh(c) or c._circuit_graph is old(c._circuit_graph))"])
+# copy of a composite: VERIFIED (loop over the nodes; each child is copied through the interface contract of ICircuitOperation.copy,
+# which is the induction hypothesis for nested composites and is implied by the 26 verified per-class copy contracts of C05):
+# a fresh composite with as many nodes, whose operations are new and pairwise different; nothing that existed before is touched
+NEWG = "result._circuit_graph.get_node_iterator()"
+F_G = "forall_obj(CircuitGraphBranch, lambda g: fresh(g) or seq_is(g.get_node_iterator(), old(g.get_node_iterator())))"
+F_C = "forall_obj(CircuitCompositeOperation, lambda c: fresh(c) or c._circuit_graph is old(c._circuit_graph))"
+F_R = "forall_obj(ICircuitOperation, lambda o: fresh(o) or o.relation_link is old(o.relation_link))"
+F_S = "forall_obj(CircuitCompositeOperation, lambda c: fresh(c) or c.repetition_strategy is old(c.repetition_strategy))"
+contract("ICircuitOperation.copy", params=dict(self=OP, relation_transfer_lookup=OPT(DICT(OP, OP))), returns=OP, verify=False, fresh_result=True,
+         modifies=REL_FIELDS + ["graph", "dict", "CircuitCompositeOperation._circuit_graph"],
+         ensures=["fresh(result)", "same_class(result, self)", F_G, F_C, F_R])
+COPY_ENS = ["typeis(result, CircuitCompositeOperation)", "fresh(result)", "fresh(result._circuit_graph)",
+            f"len({NEWG}) == len(old({NODES}))",
+            f"forall({NEWG}, lambda n: fresh(n.operation))",
+            f"forall({NEWG}, lambda n: forall({NEWG}, lambda m: n is m or n.operation is not m.operation))",
+            "result.repetition_strategy is self.repetition_strategy",
+            F_G, F_C, F_R]
+contract("CircuitCompositeOperation.copy", params=dict(self=CCO, relation_transfer_lookup=OPT(DICT(OP, OP))), returns=CCO, props=P + ["C05"],
+         fresh_result=True, inst_depth=2, split=4,
+         modifies=REL_FIELDS + ["graph", "dict", "CircuitCompositeOperation._circuit_graph"],
+         ensures=COPY_ENS + [
+             # (consequence used by repeat: the copy's operations occur in no graph that existed before)
+             f"forall({NEWG}, lambda m: forall_obj(CircuitGraphBranch, lambda g: fresh(g) or "
+             "forall(g.get_node_iterator(), lambda n: n.operation is not m.operation)))"],
+         loops={"0:kinds": {"relation_transfer_lookup": DICT(OP, OP)},
+                0: [f"seq_is(_xs, old({NODES}))",
+                    "typeis(result, CircuitCompositeOperation)", "fresh(result)", "fresh(result._circuit_graph)",
+                    f"result._circuit_graph is not {G}", "relation_transfer_lookup is not None",
+                    f"len({NEWG}) == _i",
+                    f"forall({NEWG}, lambda n: fresh(n.operation))",
+                    f"forall({NEWG}, lambda n: forall({NEWG}, lambda m: n is m or n.operation is not m.operation))",
+                    "result.repetition_strategy is self.repetition_strategy",
+                    F_G, F_C, F_R]})
 
 # one level below extend: add() is add_to_graph on this composite's own graph.  Verified against add_to_graph's contract (C01);
 # restated here over the composite so that extend's loop sees one small contract instead of add_to_graph's case analysis.
@@ -46,6 +64,7 @@ contract("CircuitCompositeOperation.add", params=dict(self=CCO, operation=OP), r
                   f"forall(old({NODES}), lambda n: exists({NODES}, lambda m: m is n))",
                   f"exists({NODES}, lambda m: m.operation is operation)",
                   f"forall({NODES}, lambda m: m.operation is operation or exists(old({NODES}), lambda n: n is m))",
+                  f"forall({NODES}, lambda a: forall({NODES}, lambda b: a is b or a.operation is not operation or b.operation is not operation))",
                   "forall_obj(ICircuitOperation, lambda o: o is operation or o.relation_link is old(o.relation_link))",
                   # an operation added with a relation to an operation of this circuit keeps its link
                   f"implies({HADREL} and {RELN} is not None, operation.relation_link is old(operation.relation_link))"])
@@ -92,7 +111,7 @@ contract("CircuitCompositeOperation.extend", params=dict(self=CCO, other=CCO), r
 # BEFORE the first extension).  Each extension is checked against extend's contract (appended operations must be new: a mutant that
 # appends the snapshot itself, or re-copies the growing circuit, fails a precondition or the count).
 contract("CircuitCompositeOperation.repeat", params=dict(self=CCO, times=INT), returns=CCO, props=P, inst_depth=2, split=4,
-         modifies=REL_FIELDS + ["graph", "CircuitCompositeOperation._circuit_graph"],
+         modifies=REL_FIELDS + ["graph", "dict", "CircuitCompositeOperation._circuit_graph"],
          ensures=["result is self", f"{G} is old({G})",
                   "forall_obj(CircuitCompositeOperation, lambda c: fresh(c) or c._circuit_graph is old(c._circuit_graph))",
                   f"forall_obj(CircuitGraphBranch, lambda g: fresh(g) or g is old({G}) or seq_is(g.get_node_iterator(), old(g.get_node_iterator())))",
@@ -132,7 +151,7 @@ RESET = ("not typeis(self, CircuitCompositeOperation) or "
 F_STRAT = "forall_obj(CircuitCompositeOperation, lambda c: fresh(c) or self.inside(c) or c.repetition_strategy is old(c.repetition_strategy))"
 F_FLD = "forall_obj(CircuitCompositeOperation, lambda c: fresh(c) or c._circuit_graph is old(c._circuit_graph))"
 F_GRAPH = "forall_obj(CircuitGraphBranch, lambda g: fresh(g) or self.owns(g) or seq_is(g.get_node_iterator(), old(g.get_node_iterator())))"
-AM_MOD = REL_FIELDS + ["graph", "CircuitCompositeOperation._circuit_graph", STRAT]
+AM_MOD = REL_FIELDS + ["graph", "dict", "CircuitCompositeOperation._circuit_graph", STRAT]
 AM_ENS = ["result is self", RESET, F_STRAT, F_FLD, F_GRAPH]
 # interface contract: used for the recursive call on every child; refined by every implementation below
 contract("ICircuitOperation.apply_modifiers_to_self", params=dict(self=OP), returns=OP, verify=False, modifies=AM_MOD,
